@@ -189,6 +189,12 @@ def run(ctx):
     for _ in range(ctx.size(20000, 200000)):
         n = ctx.rng.randint(6, 14)
         cases.append((ctx.rng.randint(1, 4), concretize([ctx.rng.choice(FULL) for _ in range(n)])))
+    # more keys than the small-scope alphabet and capacities up to 6: hits at every depth of a longer recency order
+    WIDE = ([f"{o}:{k}" for o in "gSDC" for k in range(1, 8)] + [f"G:{k}:0" for k in range(1, 8)] + [f"T:{k}" for k in range(1, 8)]
+            + [f"S:{k}" for k in range(1, 8)] * 2 + ["L", "K", "I", "R", "Y", "P"])
+    for _ in range(ctx.size(15000, 150000)):
+        n = ctx.rng.randint(8, 24)
+        cases.append((ctx.rng.randint(3, 6), concretize([ctx.rng.choice(WIDE) for _ in range(n)])))
     # capacity 0 (outside the theorem's guard; create_cache never builds one): compared too
     for n in range(1, 3):
         for ops in itertools.product(CORE, repeat=n):
